@@ -1,6 +1,7 @@
 """E-SIB (sibling agreement) and E-EXC scope B (accessor I/O error discipline).
 """
 import ast
+import re
 
 from .core import (ftext, cnorm, closure_text, AnalysisError, dotted, norm, walk_local, const_int,
                    stmts_of, calls_in, call_name, kwarg, enclosing_stmt_map,
@@ -420,7 +421,10 @@ def confinement(repo, col):
         ci = repo.cls(ms, cls)
         # helpers that establish confinement: top-level raise-guard
         helper_kind = {}
-        for mname, f in ci.methods.items():
+        inherited = {}
+        for cc in reversed(repo.mro(ci)):
+            inherited.update(cc.methods)
+        for mname, f in inherited.items():
             for g, atoms in raise_guards(f.node):
                 if isinstance(g, ast.If) and g in f.node.body:
                     k = _confinement_guard_kind(g.test)
@@ -923,9 +927,18 @@ def data_type_tables(repo, col):
             "raw decoder does not read the little-endian stored dtype",
             undecided=not okr)
     ini = repo.func("chunk_encoding", "ChunkEncoder.__init__")
-    okl = "np.dtype(data_type).newbyteorder('<')" in ftext(ini)
-    col.add(rule, ini, "self.dtype little-endian", okl, "" if okl else
-            "codec dtype is not forced to little-endian")
+    from .core import inline_view as _iv
+    iv = _iv(ini)
+    stores = [st for st in ast.walk(iv.node) if isinstance(st, ast.Assign)
+              and any(norm(t) == "self.dtype" for t in st.targets)]
+    okl = bool(stores) and all("newbyteorder('<')" in norm(st.value)
+                               for st in stores)
+    # positively wrong: the dtype is stored as given (or in another order)
+    badl = any(re.fullmatch(r"np\.dtype\(\w+\)(\.newbyteorder\((?!'<').*\))?"
+                            r"|\w+", norm(st.value)) for st in stores)
+    col.add(rule, ini, "self.dtype little-endian", okl or not badl,
+            "" if okl else "codec dtype is not forced to little-endian",
+            undecided=not okl and not badl)
 
 
 from .core import block_always_raises as block_always_raises_
